@@ -182,7 +182,21 @@ pub fn exec(cx: &mut Ctx, h: &Hist) {
                             break 'ops;
                         }
                         cx.log.event("seeks_err", 1);
-                        // the property does not say where a failed seek leaves the cipher: re-establish the position
+                        // the property does not say where a refused seek leaves the cipher. Half of
+                        // the time the history goes on from wherever the cipher says it is (what it
+                        // produces next must then be the keystream of *that* position); otherwise
+                        // the position is re-established by a seek
+                        if (i + h.kseed as usize) % 2 == 0 {
+                            if let Ok(Ok(v)) = guarded(|| ci.try_pos(SeekTy::U128)) {
+                                if v >= 0 && (v as u128) <= limit {
+                                    pos = v as u128;
+                                    pending = pos % 64 != 0;
+                                    last = None;
+                                    cx.log.event("continued_from_reported_position_after_refused_seek", 1);
+                                    continue;
+                                }
+                            }
+                        }
                         if pos <= u64::MAX as u128 {
                             match guarded(|| ci.try_seek(SeekTy::U64, pos, false)) {
                                 Ok(Ok(())) => pending = true,
